@@ -286,7 +286,7 @@ func c08Partition(w *World, r *Report) {
 			}
 		}
 	}
-	r.Check(okContent && n >= 3, "C08/PARTITION", "content-verbatim", w.Pos(fn.Pos()), "the stored document text is the split entry itself", "the stored document text is transformed before it is stored")
+	r.Check(okContent && n >= 2, "C08/PARTITION", "content-verbatim", w.Pos(fn.Pos()), "the stored document text is the split entry itself", "the stored document text is transformed before it is stored")
 }
 
 func c08Split(w *World, r *Report) {
@@ -766,8 +766,14 @@ func c08Barrier(w *World, r *Report) {
 	// Add before go; Done after the send in the worker
 	okAdd := addC != nil && g.DominatesInstr(addC, posOf(goI))
 	okDone := false
+	var workerFn *ssa.Function
 	if mc, isMC := goI.Call.Value.(*ssa.MakeClosure); isMC {
-		if wf, isF := mc.Fn.(*ssa.Function); isF {
+		workerFn, _ = mc.Fn.(*ssa.Function)
+	} else if sf := goI.Call.StaticCallee(); sf != nil && inHelm(sf) {
+		workerFn = sf // the worker is a named function
+	}
+	if workerFn != nil {
+		if wf := workerFn; len(wf.Blocks) > 0 {
 			wg := FullGraph(wf)
 			var send ssa.Instruction
 			var done ssa.Instruction
